@@ -102,6 +102,11 @@ def configs():
         out.append(dict(expl=mode, storage='own', imputer='own', n=1, reservoir=True, delivery_pair=True))
     out.append(dict(expl='pfi', storage='geometric', imputer='joint', n=1, delivery_pair=True))
     out.append(dict(expl='interval', storage='own', imputer='own', n=1, delivery_pair=True))
+    # every call overrides n_inner_samples (smaller and larger than the constructor's value): scratch space sized for the
+    # constructor's value must never leak into results
+    for expl in ('pfi', 'sage-dynamic'):
+        out.append(dict(expl=expl, storage='geometric', imputer='joint', n=4, override=1))
+        out.append(dict(expl=expl, storage='uniform', imputer='product', n=1, override=3))
     return out
 
 
@@ -206,6 +211,8 @@ def _run_cell_once(cfg, seeds, prehist, skind, n_obs, delivery='copy'):
                 (ex.update_storage(give(x), y) or _EMPTY)
         elif e == 'interval':
             vals = ex.explain_one(give(x), y, verbose=False)
+        elif cfg.get('override'):
+            vals = ex.explain_one(give(x), y, n_inner_samples=cfg['override'])
         else:
             vals = ex.explain_one(give(x), y)
         st_obj = storage if storage is not None else getattr(ex, '_storage', None)   # library default: private, optional
@@ -489,7 +496,7 @@ def cfg_label(cfg):
     if cfg['storage'] == 'tree':
         return f"{cfg['expl']}+TreeStorage(seed={cfg['tree_seed']})+TreeImputer(use_storage={cfg['use_storage']},direct={cfg['direct']})"
     return f"{cfg['expl']}+{cfg['storage']}+{cfg['imputer']}" + ('+river-string-label-model' if cfg.get('river') else '') + \
-        ('+reservoir' if cfg.get('reservoir') else '') + ('+delivery-pair' if cfg.get('delivery_pair') else '')
+        ('+reservoir' if cfg.get('reservoir') else '') + ('+delivery-pair' if cfg.get('delivery_pair') else '') + (f"+n{cfg['n']}-override{cfg['override']}" if cfg.get('override') else '')
 
 
 def replay(data):
